@@ -4,6 +4,9 @@ From Util Require Import Common.Base Common.ListLemmas Keyed.Model.
 
 (* ------------------------------------------------------------------ *)
 (* association lists *)
+Lemma w0_repaired {A} (b c : bool) (p q : A) : (if (if b then c || true else true) then p else q) = p.
+Proof. destruct b, c; reflexivity. Qed.
+
 Lemma lookup_insert_same {A} (m : list (nat * A)) k v : lookup (insert m k v) k = Some v.
 Proof.
   induction m as [|[k' v'] t IH]; cbn [insert lookup]; [now rewrite Nat.eqb_refl|].
@@ -379,7 +382,7 @@ Lemma Inv_start s k r c w force :
   Inv s -> lookup (kmap s) k = Some r -> chain_ok (insts s) (rlin (getr s r)) w -> Inv (start_rec s r c w force).
 Proof.
   intros H Hk Hw. unfold start_rec. set (x := getr s r).
-  destruct (negb force && rsucc x); [exact H|].
+  destruct (negb force && rsucc x || rnil x); [exact H|].
   destruct (negb force && is_some (rctx x) && negb (rexited x) && ctx_live s (rctx x)); [exact H|].
   set (s1 := stop_timer s (rretry x)).
   assert (H1 : Inv s1) by (apply Inv_stop_timer, H).
@@ -649,7 +652,7 @@ Proof.
   destruct (cancel_inst_frame s (rcancel x)) as [C1 [C2 _]]. fold s1 in C1, C2.
   assert (X1 : getr s1 r = x) by (unfold getr, x; now rewrite C2).
   assert (K1 : lookup (kmap s1) k = Some r) by (rewrite C1; exact Ek).
-  cbn [fx_reset repaired]. rewrite orb_true_r.
+  cbn [fx_reset fx_nilchain repaired]. rewrite w0_repaired.
   assert (W : chain_ok (insts s1) (rlin (getr s1 r)) (rexit x)).
   { destruct H1 as [_ [HM _]]. destruct (HM k r K1) as [_ [_ [_ [M4 _]]]]. rewrite X1 in M4. rewrite X1. exact M4. }
   destruct (Inv_new_same s1 k r (rexit x) H1 K1 W) as [H2 K2]. rewrite X1 in H2, K2.
@@ -954,6 +957,7 @@ Proof.
   - unfold advance. now apply Inv_set_timers, Inv_set_clock.
   - now apply timer_cb_inv.
   - now apply cancel_root_inv.
+  - revert H. apply Inv_ext; reflexivity.
 Qed.
 
 Lemma init_inv dl sc : Inv (init dl sc).
